@@ -1186,6 +1186,13 @@ func argText(c *ast.CallExpr) string {
 	return strings.Join(parts, ", ")
 }
 
+func identOf(e ast.Expr) *ast.Ident {
+	if id, ok := e.(*ast.Ident); ok {
+		return id
+	}
+	return &ast.Ident{}
+}
+
 func rangeKind(t types.Type) string {
 	if t == nil {
 		return "unknown"
@@ -1229,7 +1236,7 @@ func genSites(repo, outdir string) {
 	if err != nil {
 		fatalf("go/packages: %v", err)
 	}
-	var sites []string
+	var sites, ioSites []string
 	ordered := 0
 	for _, pkg := range pkgs {
 		if len(pkg.Errors) > 0 {
@@ -1265,8 +1272,42 @@ func genSites(repo, outdir string) {
 						default:
 							sites = append(sites, fmt.Sprintf("range-%s %s %s %s", k, rel, fn, typeString(n.X)))
 						}
+					case *ast.SelectorExpr:
+						// every use of a function or variable of the packages input and output go through (io, bufio, os,
+						// io/ioutil): the routes by which a subcommand reads its input and writes its result
+						if id, ok := n.X.(*ast.Ident); ok {
+							if pn, ok := pkg.TypesInfo.Uses[id].(*types.PkgName); ok {
+								switch pn.Imported().Path() {
+								case "io", "bufio", "os", "io/ioutil", "io/fs":
+									switch pkg.TypesInfo.Uses[n.Sel].(type) {
+									case *types.Func, *types.Var:
+										ioSites = append(ioSites, fmt.Sprintf("%s %s %s.%s", rel, fn, pn.Imported().Path(), n.Sel.Name))
+									}
+								}
+							}
+						}
+					case *ast.CompositeLit:
+						if t := pkg.TypesInfo.TypeOf(n); t != nil {
+							if nt, ok := t.(*types.Named); ok && nt.Obj().Pkg() != nil {
+								switch nt.Obj().Pkg().Path() {
+								case "io", "bufio", "os", "io/ioutil", "io/fs":
+									ioSites = append(ioSites, fmt.Sprintf("%s %s %s.%s{}", rel, fn, nt.Obj().Pkg().Path(), nt.Obj().Name()))
+								}
+							}
+						}
 					case *ast.CallExpr:
 						name := typeString(n.Fun)
+						// a direct Read/ReadAt/Seek on a reader takes part of the input only
+						if sel, ok := n.Fun.(*ast.SelectorExpr); ok {
+							switch sel.Sel.Name {
+							case "Read", "ReadAt", "ReadByte", "ReadRune", "ReadLine", "ReadSlice", "ReadString", "ReadBytes", "Peek", "Seek", "Scan", "Buffer", "Truncate", "Stat":
+								if _, isPkg := pkg.TypesInfo.Uses[identOf(sel.X)].(*types.PkgName); !isPkg {
+									if t := pkg.TypesInfo.TypeOf(sel.X); t != nil && (strings.Contains(t.String(), "io.") || strings.Contains(t.String(), "os.") || strings.Contains(t.String(), "bufio.")) {
+										ioSites = append(ioSites, fmt.Sprintf("%s %s (%s).%s", rel, fn, t.String(), sel.Sel.Name))
+									}
+								}
+							}
+						}
 						// a method called on a value whose type is a map underneath (util.Set): its iteration order is the map's
 						if sel, ok := n.Fun.(*ast.SelectorExpr); ok {
 							if t := pkg.TypesInfo.TypeOf(sel.X); t != nil {
@@ -1352,6 +1393,13 @@ func genSites(repo, outdir string) {
 	o.list("panicSites", "List String", pitems)
 	o.f("/-- the sites whose behaviour can depend on something other than the input (C12) -/\n")
 	o.list("orderSites", "List String", oitems)
+	sort.Strings(ioSites)
+	var ioitems []string
+	for _, s := range ioSites {
+		ioitems = append(ioitems, leanStr(s))
+	}
+	o.f("/-- every use of the io, bufio and os packages: how input is read and output written (whole, never a part) -/\n")
+	o.list("ioSites", "List String", ioitems)
 	o.f("/-- ranges over slices, arrays, strings and integers (deterministic order) -/\ndef orderedRanges : Nat := %d\n\n", ordered)
 	o.f("end Crd.Generated\n")
 	write(outdir, "Sites.lean", o)
